@@ -15,7 +15,7 @@
 (* ones (sorted, merged); refused => the strict reading refuses too.                    *)
 EXTENDS DisputesFn, Json, TLC
 CONSTANTS TraceFile, ResultFile, KnownDeviations
-VARIABLES psi, vcount, allowed, l
+VARIABLES psi, vcount, allowed, elen, l
 
 Trace == ndJsonDeserialize(TraceFile)
 e == Trace[l]
@@ -38,17 +38,22 @@ RawSureInvalid(ev, V) ==
   \/ \E i \in 1..Len(ev.culprits) : ev.culprits[i].sig # "ok"
   \/ \E i \in 1..Len(ev.faults) : ev.faults[i].sig # "ok"
 RawCountOK(ev, V) == \A i \in 1..Len(ev.verdicts) : Len(ev.verdicts[i].votes) = GoodN(V)
+\* In epoch 0 the age floor(tau/E) - 1 is not a natural number; the driver sends the wrapped 32-bit value.  The
+\* statement does not settle it: refusal is allowed (strict reading), acceptance too.  From epoch 1 on "prev" is
+\* the previous epoch and must be accepted like "cur".
+RawAgeExists(ev, epoch) == \A i \in 1..Len(ev.verdicts) : ev.verdicts[i].age = "prev" => epoch >= 1
 
 TReset == /\ Is("Reset")
           /\ psi' = PsiOf(e.psi)
           /\ vcount' = e.V
           /\ allowed' = SetOf(e.kappa) \cup SetOf(e.lambda)
+          /\ elen' = e.E
 
 TBlock ==
   /\ Is("Block")
   /\ LET vs == VS(e) cs == CS(e) fs == FS(e)
          sure == RawSureInvalid(e, vcount) \/ SureInvalid(vcount, psi, vs, cs, fs, allowed)
-         strict == ~sure /\ RawCountOK(e, vcount) /\ FaultTargetsJudged(vcount, psi, vs, cs, fs)
+         strict == ~sure /\ RawCountOK(e, vcount) /\ RawAgeExists(e, e.tau \div elen) /\ FaultTargetsJudged(vcount, psi, vs, cs, fs)
      IN IF e.ok
         THEN /\ ~sure                                                         \* S1, S3 (MustReject) and the certain clauses
              /\ PsiOf(e.psi) = PsiNext(vcount, psi, vs, cs, fs)                \* S1, S2, S3 (sorted merge)
@@ -57,11 +62,11 @@ TBlock ==
              /\ psi' = PsiOf(e.psi)
         ELSE /\ ~strict                                                        \* a valid block is not refused
              /\ psi' = psi
-  /\ UNCHANGED <<vcount, allowed>>
+  /\ UNCHANGED <<vcount, allowed, elen>>
 
-TraceInit == l = 1 /\ psi = [g |-> <<>>, b |-> <<>>, w |-> <<>>, o |-> <<>>] /\ vcount = 6 /\ allowed = {}
+TraceInit == l = 1 /\ psi = [g |-> <<>>, b |-> <<>>, w |-> <<>>, o |-> <<>>] /\ vcount = 6 /\ allowed = {} /\ elen = 12
 TraceNext == TReset \/ TBlock
-TraceSpec == TraceInit /\ [][TraceNext]_<<psi, vcount, allowed, l>>
+TraceSpec == TraceInit /\ [][TraceNext]_<<psi, vcount, allowed, elen, l>>
 
 \* S1 / S2 on every state the code went through
 RecordsDisjoint == Disjoint(psi)
